@@ -1,8 +1,146 @@
-import NasdaqModel.Lemmas.PyLemmas
-import NasdaqModel.Model.FixFrame
+import NasdaqModel.Lemmas.FixFrameLemmas
+import NasdaqModel.Props.C13
+/-
+C14 — every FIX frame a session writes carries correct BodyLength, MsgType and CheckSum, and the library's own reader
+frames it back, whatever the segmentation.
+Only property theorems (`C14_*`), the predicates they are stated with, and non-vacuity examples live here;
+the lemmas are in Lemmas/FixFrameLemmas.lean, the model in Model/FixFrame.lean.
+-/
 namespace NasdaqModel.Props.C14
 open NasdaqModel Py Fix FixFrame
 
-theorem C14_stub : byteSum [] = 0 := rfl
+/-- **Shape.** Every frame written is
+    `8=<version>SOH 9=<n>SOH 35=<type>SOH <encoded message> 10=<ccc>SOH` where `n` (plain decimal) is exactly the number of
+    bytes between the end of the BodyLength field and the start of the CheckSum field, and `ccc` is three decimal digits
+    whose value is the sum of all bytes before the CheckSum field modulo 256 — for any message, any header values
+    (which change the length of the header and so the number of digits of `n`), both versions. -/
+theorem C14_shape (ver : Str) (d : MsgDef) (se : Sess) (seq : Int) (time : Str) (m m' : Msg) (f : Bytes)
+    (h : frame ver d se seq time m = .ok (f, m')) :
+    ∃ body ck : Bytes, encMsg d m' = .ok body ∧
+      f = ([56, 61] ++ ver ++ [1]) ++ ([57, 61] ++ natDigits ([51, 53, 61] ++ d.type ++ 1 :: body).length ++ [1]) ++
+            ([51, 53, 61] ++ d.type ++ 1 :: body) ++ ([49, 48, 61] ++ ck ++ [1]) ∧
+      ck.length = 3 ∧ (∀ c ∈ ck, isDigit c = true) ∧
+      digitsVal ck = byteSum (([56, 61] ++ ver ++ [1]) ++
+            ([57, 61] ++ natDigits ([51, 53, 61] ++ d.type ++ 1 :: body).length ++ [1]) ++
+            ([51, 53, 61] ++ d.type ++ 1 :: body)) % 256 := by
+  obtain ⟨hd, body, _, _, hbody, hprep⟩ := frame_inv h
+  obtain ⟨hf, _, _⟩ := prepare_eq hprep
+  have hp := pad3 (x := byteSum (summed ver d.type body) % 256) (by omega)
+  have hs : summed ver d.type body = ([56, 61] ++ ver ++ [1]) ++
+      ([57, 61] ++ natDigits ([51, 53, 61] ++ d.type ++ 1 :: body).length ++ [1]) ++ ([51, 53, 61] ++ d.type ++ 1 :: body) := by
+    simp [summed, counted]
+  refine ⟨body, rjust0 (natDigits (byteSum (summed ver d.type body) % 256)) 3, hbody, ?_, hp.1, hp.2.1, ?_⟩
+  · rw [hf, hs]
+  · rw [hp.2.2, hs]
+
+/-- **Read back.** On a buffer that begins with a frame the session wrote (followed by anything: the next frame, a part
+    of it, nothing) `FixMessageReader.deserialize` cuts exactly that frame and leaves the rest. -/
+theorem C14_read_back (ver : Str) (d : MsgDef) (se : Sess) (seq : Int) (time : Str) (m m' : Msg) (f rest : Bytes)
+    (hv : wfVer ver = true) (h : frame ver d se seq time m = .ok (f, m')) :
+    fixCut (f ++ rest) = .ok (some (f, rest)) := by
+  obtain ⟨_, body, _, _, _, hprep⟩ := frame_inv h
+  exact fixCut_frame hprep (wfVer_iff hv) rest
+
+/-- **Nothing early.** While only a proper prefix of the frame has arrived the reader frames nothing and raises nothing. -/
+theorem C14_no_early (ver : Str) (d : MsgDef) (se : Sess) (seq : Int) (time : Str) (m m' : Msg) (f p q : Bytes)
+    (hv : wfVer ver = true) (h : frame ver d se seq time m = .ok (f, m')) (hpq : f = p ++ q) (hq : q ≠ []) :
+    fixCut p = .ok none := by
+  obtain ⟨_, body, _, _, _, hprep⟩ := frame_inv h
+  exact fixCut_prefix hprep (wfVer_iff hv) p q hpq hq
+
+/-- **Any segmentation.** Feeding the frame to the reader cut into arbitrary pieces (empty ones included), deserialising
+    after every piece, frames exactly one message — the frame — and leaves an empty buffer. -/
+theorem C14_segmentation (ver : Str) (d : MsgDef) (se : Sess) (seq : Int) (time : Str) (m m' : Msg) (f : Bytes)
+    (hv : wfVer ver = true) (h : frame ver d se seq time m = .ok (f, m')) (segs : List Bytes) (hs : segs.flatten = f) :
+    feed segs [] [] = .ok ([f], []) := by
+  obtain ⟨_, body, _, _, _, hprep⟩ := frame_inv h
+  have hne : segs.flatten ≠ [] := by
+    rw [hs]; intro hf
+    have := frame_length hprep
+    rw [hf] at this
+    simp at this
+  have := feed_frame hprep (wfVer_iff hv) segs [] [] (by simpa using hs) hne
+  simpa using this
+
+/-- **Decodes to what was sent.**  `Message.from_bytes` on the frame returns the class of the sent message, consumes the
+    whole frame, and yields the sent message (as left by the header stamping; groups in dictionary order) with the four
+    framing fields added: `8`, `9`, `35` in front of the header, `10` at the end of the trailer. -/
+theorem C14_decodes_to_sent (reg : List MsgDef) (ver : Str) (d : MsgDef) (se : Sess) (seq : Int) (time : Str)
+    (m m' : Msg) (f : Bytes)
+    (hv : wfVer ver = true) (hvt : wfText ver = true) (hty : wfText d.type = true)
+    (hd : wfDef d = true) (he : framingEntries d) (hm' : wfMsg d m' = true)
+    (hk : 8 ∉ keysOf m'.hdr ∧ 9 ∉ keysOf m'.hdr ∧ 35 ∉ keysOf m'.hdr ∧ 10 ∉ keysOf m'.trl)
+    (hreg : lookupReg reg d.type = some d)
+    (h : frame ver d se seq time m = .ok (f, m')) :
+    ∃ body, encMsg d m' = .ok body ∧
+      decodeMsg reg f = .ok (f.length, d,
+        framed ver (counted d.type body).length d.type
+          (rjust0 (natDigits (byteSum (summed ver d.type body) % 256)) 3) (canonMsg d m')) := by
+  obtain ⟨_, body, _, _, hbody, hprep⟩ := frame_inv h
+  refine ⟨body, hbody, ?_⟩
+  obtain ⟨hf, hta, hva⟩ := prepare_eq hprep
+  have hx : byteSum (summed ver d.type body) % 256 < 1000 := by omega
+  have hck : wfText (rjust0 (natDigits (byteSum (summed ver d.type body) % 256)) 3) = true := by
+    simp only [wfText, List.all_eq_true, Bool.and_eq_true, decide_eq_true_eq]
+    intro c hc
+    have := (pad3 hx).2.1 c hc
+    simp [isDigit] at this
+    omega
+  have hcka : (rjust0 (natDigits (byteSum (summed ver d.type body) % 256)) 3).all (· < 128) = true := (wfText_iff hck).1
+  have hwf := wfMsg_framed he (counted d.type body).length hvt hty hck hm' hk
+  -- the frame is the encoding of the framed message
+  obtain ⟨fh, fb, ft, hfh, hfb, hft, hbs⟩ := encMsg_wire hd hm' hbody
+  obtain ⟨bs, henc⟩ := C13.C13_encodes d _ hd hwf
+  obtain ⟨fh', fb', ft', hfh', hfb', hft', hbs'⟩ := encMsg_wire hd hwf henc
+  have e1 := encSegFields_framed_hdr he (counted d.type body).length hva hta hfh
+  have e3 := encSegFields_framed_trl he hcka hft
+  simp only [framed] at hfh' hfb' hft'
+  rw [e1] at hfh'; rw [hfb] at hfb'; rw [e3] at hft'
+  injection hfh' with hfh'; injection hfb' with hfb'; injection hft' with hft'
+  subst hfh'; subst hfb'; subst hft'
+  have hbf : bs = f := by
+    rw [hbs', hf, hbs]
+    simp [termAll_cons, termAll_append, termAll_nil, summed, counted]
+  subst hbf
+  -- the first `35=` is the MsgType field
+  have hmt : getMsgType bs = .ok d.type := by
+    have e : bs = ([56, 61] ++ ver ++ 1 :: ([57, 61] ++ natDigits (counted d.type body).length ++ [1])) ++ [51, 53, 61] ++
+        (d.type ++ 1 :: (body ++ ([49, 48, 61] ++ rjust0 (natDigits (byteSum (summed ver d.type body) % 256)) 3 ++ [1]))) := by
+      rw [hf]; simp [summed, counted]
+    rw [e]
+    exact getMsgType_at _ _ _ (noAdj_head ver (by
+      intro hm; simp only [wfVer, List.all_eq_true, decide_eq_true_eq] at hv; exact hv 61 hm rfl) _) (wfText_iff hty).2 hta
+  rw [C13.C13_roundtrip reg d _ bs hd hwf henc hmt hreg, canonMsg_framed he]
+
+/-! ### non-vacuity: a session dictionary, a message with a repeating group, the frame it is sent as -/
+
+/-- standard header (8, 9, 35, 49, 56, 34, 50, 52), body: Text(58), group 453 { 448 string, 447 char }, trailer: 10 -/
+def exDef : MsgDef :=
+  { name := [68], type := [68],
+    hdr := [.field 8 .string true, .field 9 .int true, .field 35 .string true, .field 49 .string true,
+            .field 56 .string true, .field 34 .int true, .field 50 .string false, .field 52 .string true],
+    body := [.field 58 .string false, .group 453 [.field 448 .string true, .field 447 .char false] false],
+    trl := [.field 10 .string true] }
+
+def exSess : Sess := { senderSub := [], target := [83, 82, 86], sender := [67, 76, 73] }      -- '', 'SRV', 'CLI'
+def exTime : Str := [50,48,50,54,48,57,50,57,45,49,50,58,48,48,58,48,48]                     -- 20260929-12:00:00
+def exVer : Str := [70, 73, 88, 46, 52, 46, 52]
+/-- group instance assigned `447` before `448` -/
+def exMsg : Msg :=
+  { hdr := [], body := [(453, .grp [[(447, .str [88]), (448, .str [97])], [(448, .str [98])]]), (58, .str [104, 105])],
+    trl := [] }
+
+/-- the frame exists, is `8=FIX.4.4|9=80|35=D|50=|56=SRV|49=CLI|34=99|52=20260929-12:00:00|453=2|448=a|447=X|448=b|58=hi|10=014|`
+    (102 bytes: BodyLength 80, CheckSum zero-padded), and the stamped message satisfies the hypotheses of `C14_decodes_to_sent` -/
+example : (match frame exVer exDef exSess 99 exTime exMsg with
+    | .ok (f, m') => wfMsg exDef m' && decide (f.length = 102) && f.take 16 == [56,61,70,73,88,46,52,46,52,1,57,61,56,48,1,51]
+        && f.drop 95 == [49,48,61,48,49,52,1]
+        && !hasKey m'.hdr 8 && !hasKey m'.hdr 9 && !hasKey m'.hdr 35 && !hasKey m'.trl 10
+    | .error _ => false) = true := by decide +kernel
+example : framingEntries exDef := ⟨⟨true, rfl⟩, ⟨true, rfl⟩, ⟨true, rfl⟩, ⟨true, rfl⟩⟩
+example : wfDef exDef = true ∧ wfText exDef.type = true ∧ wfText exVer = true := by decide
+example : lookupReg [exDef] exDef.type = some exDef := rfl
+example : wfVer [70, 73, 88, 46, 52, 46, 52] = true := by decide            -- FIX.4.4
+example : wfVer [70, 73, 88, 84, 46, 49, 46, 49] = true := by decide        -- FIXT.1.1
 
 end NasdaqModel.Props.C14
